@@ -9,8 +9,21 @@ use std::sync::atomic::{AtomicU64, Ordering};
 static COUNTER: AtomicU64 = AtomicU64::new(0);
 
 pub fn scratch_root() -> PathBuf {
-    let base = std::env::var("VERIF_SCRATCH").unwrap_or_else(|_| "/dev/shm".to_string());
-    PathBuf::from(base).join(format!("pocket-sim.{}", std::process::id()))
+    let base = match std::env::var("VERIF_SCRATCH") {
+        Ok(b) if !b.is_empty() => PathBuf::from(b),
+        _ => {
+            // tmpfs if it is there and writable, else the system temp dir
+            let shm = PathBuf::from("/dev/shm");
+            let probe = shm.join(format!(".pocket-sim-probe.{}", std::process::id()));
+            if shm.is_dir() && std::fs::write(&probe, b"x").is_ok() {
+                let _ = std::fs::remove_file(&probe);
+                shm
+            } else {
+                std::env::temp_dir()
+            }
+        }
+    };
+    base.join(format!("pocket-sim.{}", std::process::id()))
 }
 
 pub fn cleanup_scratch_root() {
